@@ -190,15 +190,17 @@ func primaryPayloadTypeForRTXExists(needle RTPCodecParameters, haystack []RTPCod
 
 // Filter out RTX codecs that do not have a primary codec.
 func filterUnattachedRTX(codecs []RTPCodecParameters) []RTPCodecParameters {
-	for i := len(codecs) - 1; i >= 0; i-- {
-		c := codecs[i]
+	// Filter into a new slice: the argument may be the MediaEngine's own codec list.
+	filtered := make([]RTPCodecParameters, 0, len(codecs))
+	for _, c := range codecs {
 		if isRTX, primaryExists := primaryPayloadTypeForRTXExists(c, codecs); isRTX && !primaryExists {
 			// no primary for RTX, remove the RTX
-			codecs = append(codecs[:i], codecs[i+1:]...)
+			continue
 		}
+		filtered = append(filtered, c)
 	}
 
-	return codecs
+	return filtered
 }
 
 // For now, only FlexFEC is supported.
